@@ -207,7 +207,12 @@ func (c *Ctx) inferModel(rule string) *inferModel {
 		for _, fi := range c.familyInstrs(fn) {
 			if call, ok := fi.I.(*ssa.Call); ok {
 				if callee := call.Call.StaticCallee(); callee != nil && c.P.InPkg(callee) && callee.Signature.Params().Len() == 1 && isNamed(callee.Signature.Params().At(0).Type(), "reflect", "StructField") {
-					c.roles["role:tag-parser"] = callee
+					// (the parser returns the parsed tag as a struct; a helper that returns just the name is not it)
+					if rs := callee.Signature.Results(); rs.Len() == 1 {
+						if _, isStruct := rs.At(0).Type().Underlying().(*types.Struct); isStruct {
+							c.roles["role:tag-parser"] = callee
+						}
+					}
 				}
 			}
 		}
